@@ -238,6 +238,16 @@ func solveAll(vcs []*VC, obls []*Obligation, vcOf map[*Obligation]*VC, tier stri
 			sem <- struct{}{}
 			defer func() { <-sem }()
 			vc := vcOf[o]
+			if o.Static != "" {
+				o.Solver = "syntactic check of the SSA form"
+				if o.Static == "holds" {
+					o.Result = "unsat"
+				} else {
+					o.Result = "sat"
+					o.Output = "decided by inspection of the function's instructions: " + o.Text
+				}
+				return
+			}
 			text := vc.smtText(o)
 			file := filepath.Join(scratch, fmt.Sprintf("o%04d.smt2", i))
 			if len(text) > maxVCBytes {
